@@ -10,7 +10,7 @@ Layer 2 (timers): TLC checks spec/Timer.tla (set_timer/configure/arm/run/program
 Layer 3 (binding):harness/drv_timer.c runs seeded random populations of real timers and dispatch_after
                   blocks on the three clocks with histories of set_timer/suspend/resume/cancel and
                   evaluates the spec's invariants on the observed events."""
-import os, re, json, collections, time
+import os, re, json, collections, time, concurrent.futures
 from vlib import *
 
 PROP = "C11"
@@ -195,17 +195,36 @@ def heap_layer(v, tier, seed):
             raise Broken("spec mutant %s of TimerHeap not refuted: the invariants are vacuous in these bounds" % mut)
         v.notes.setdefault("spec_mutants_refuted", []).append({"spec": "TimerHeap", "mutant": mut, "by": r.violated})
     # (d) long random behaviours, up to 40 timers: segments grow to 5 and shrink back; replayed with digests
-    nsim, simlen = (40, 260) if tier == "quick" else (400, 400)
-    csv = os.path.join(d, "heap_sim.csv")
-    if os.path.exists(csv):
-        os.unlink(csv)
-    cfg = cfg_from("TimerHeap_sim.cfg", "TimerHeap_sim_run.cfg", Emit='"%s"' % csv, SimLen=str(simlen))
-    r = tlc_must_pass("TimerHeap simulate", "TimerHeap.tla", cfg, timeout=1500, simulate=nsim, depth=simlen + 2, seed=seed, workers=4)
-    if r.violated:
-        v.violation("spec TimerHeap (simulation, 40 timers) violates %s" % r.violated, save_replay(PROP, "TimerHeap_sim.tlc.out", r.out))
+    nproc, nsim, simlen = (4, 10, 260) if tier == "quick" else (8, 50, 400)
+    csvs = [os.path.join(d, "heap_sim_%d.csv" % i) for i in range(nproc)]
+
+    def one(i):
+        if os.path.exists(csvs[i]):
+            os.unlink(csvs[i])
+        cfg = cfg_from("TimerHeap_sim.cfg", "TimerHeap_sim_run%d.cfg" % i, Emit='"%s"' % csvs[i], SimLen=str(simlen))
+        # (TLC's RandomElement stream is per process: one worker per process, several processes)
+        return tlc_must_pass("TimerHeap simulate", "TimerHeap.tla", cfg, timeout=1500, simulate=nsim, depth=simlen + 2,
+                             seed=seed * 1000 + i, workers=1, metaname="C11_heap_sim%d" % i, heap="2g")
+    with concurrent.futures.ThreadPoolExecutor(nproc) as ex:
+        rs = list(ex.map(one, range(nproc)))
+    bad = [r for r in rs if r.violated]
+    if bad:
+        v.violation("spec TimerHeap (simulation, 40 timers) violates %s" % bad[0].violated, save_replay(PROP, "TimerHeap_sim.tlc.out", bad[0].out))
     else:
+        csv = os.path.join(d, "heap_sim.csv")
+        with open(csv, "w") as out:
+            seen = set()
+            for c in csvs:
+                if not os.path.exists(c):
+                    raise Broken("TLC simulation wrote no behaviours: %s" % rs[0].out[-1500:])
+                for line in open(c):
+                    if line not in seen:
+                        seen.add(line)
+                        out.write(line)
+                os.unlink(c)
         vec = os.path.join(d, "heap_sim.vec")
         n, steps, maxseg, sample = heap_sim_vectors(csv, vec, 40)
+        os.unlink(csv)
         if n == 0 or maxseg < 4:
             raise Broken("simulation did not produce behaviours reaching 4+ segments (n=%d maxseg=%d)" % (n, maxseg))
         res = run_heap_driver(v, drv, vec, "sim", "random behaviours with up to 40 timers")
